@@ -64,7 +64,7 @@ SCENARIOS = {
     # enums, constants, functions and globals using a typedef
     "q_consts": dict(NONE, td=("t1",), en=("e1",), k=("k1",), fn=("f1",), gv=("g1",), n=2),
     # anonymous aggregates, bit-fields, arrays, function pointers
-    "q_rich": dict(NONE, td=("t1",), tags=("s1",), feat=("anon", "bits", "arr"), n=2),
+    "q_rich": dict(NONE, td=("t1",), tags=("s1",), feat=("anon", "bits", "arr", "nested"), n=2),
     "q_fn": dict(NONE, td=("t1",), fn=("f1",), gv=("g1",), feat=("fnp", "file"), n=2),
     # non-vacuity: "strict" and the broken variants must be caught somewhere in here
     "sanity": dict(NONE, td=("t1",), feat=("file", "arr", "anon"), n=1),
@@ -74,7 +74,7 @@ SCENARIOS = {
                  prims=("int", "char"), feat=("file", "fwd"), n=2),
     "consts3": dict(NONE, td=("t1",), en=("e1",), k=("k1",), fn=("f1",), gv=("g1",), n=3),
     "rich2": dict(NONE, td=("t1", "t2"), tags=("s1",), fn=("f1",), gv=("g1",),
-                  feat=("anon", "bits", "arr", "fnp", "pp", "union"), n=2),
+                  feat=("anon", "bits", "arr", "fnp", "pp", "union", "nested"), n=2),
     "types3": dict(NONE, td=("t1", "t2"), tags=("s1",), feat=("file", "fwd"), n=3),
     "all3": dict(NONE, td=("t1",), tags=("s1",), en=("e1",), k=("k1",), fn=("f1",), gv=("g1",), feat=("file",), n=3),
 }
@@ -89,6 +89,34 @@ def tuples(out, head):
 
 
 # --------------------------------------------------------------------------- one implementation case
+
+def module_tables(text):
+    """The keyword arguments of the generated `_cffi_backend.FFI(...)` call, decoded into the shape of
+    CdefOol!Encode: words as signed 32-bit integers, names as text."""
+    import ast
+
+    def w(b):
+        return int.from_bytes(b[:4], "big", signed=True)
+    call = [n for n in ast.walk(ast.parse(text)) if isinstance(n, ast.Call) and getattr(n.func, "attr", "") == "FFI"][0]
+    kw = {k.arg: ast.literal_eval(k.value) for k in call.keywords if k.arg != "_includes"}
+    t = kw.get("_types", b"")
+    out = {"types": [w(t[i:i + 4]) for i in range(0, len(t), 4)], "globals": [], "structs": [], "enums": [], "typenames": []}
+    g = kw.get("_globals", ())
+    for i in range(0, len(g), 2):
+        out["globals"].append([g[i][4:].decode(), w(g[i]), str(g[i + 1])])
+    for desc in kw.get("_struct_unions", ()):
+        flds = []
+        for f in desc[1:]:
+            op = w(f) % 256
+            flds.append([(f[8:] if op == 19 else f[4:]).decode(), op, w(f) >> 8, w(f[4:8]) if op == 19 else -1])
+        out["structs"].append([desc[0][8:].decode(), w(desc[0]), w(desc[0][4:8]), flds])
+    for e in kw.get("_enums", ()):
+        name, _, rest = e[8:].partition(b"\x00")
+        out["enums"].append([name.decode(), w(e), w(e[4:8]), [x for x in rest.decode().split(",") if x]])
+    for tn in kw.get("_typenames", ()):
+        out["typenames"].append([tn[4:].decode(), w(tn)])
+    return out
+
 
 def load_module(path, modname):
     spec = importlib.util.spec_from_file_location(modname, path)
@@ -150,6 +178,7 @@ def _run_case(idx, beh, libpath, workdir, flavour):
             rec["same"] = mg.same_facts(keep_i, keep_o)
             with open(path) as f:
                 rec["module_text"] = f.read()
+            rec["tables"] = module_tables(rec["module_text"])
         except Exception as e:
             rec["emit"] = "error:import:" + type(e).__name__
             rec["emit_msg"] = str(e)[:300]
@@ -160,6 +189,7 @@ def _run_case(idx, beh, libpath, workdir, flavour):
                 pass
     if "ool" not in rec:
         rec["ool"] = rec["inl"]
+    rec.setdefault("tables", {})
     return rec
 
 
@@ -192,7 +222,7 @@ CLAUSE = {
 def validate(ctx, recs, name="Trace_CdefOol"):
     """TLC gives the verdicts; returns {id: (V, D)}."""
     out = {}
-    slim = [{k: r[k] for k in ("id", "beh", "inl", "ool", "same", "emit")} for r in recs]
+    slim = [{k: r[k] for k in ("id", "beh", "inl", "ool", "same", "emit", "tables")} for r in recs]
     for i in range(0, len(slim), 1500):
         chunk = slim[i:i + 1500]
         path = os.path.join(ctx.tmp, "trace_%d.json" % len(ctx.cov["tlc_runs"]))
@@ -244,8 +274,10 @@ ALL_PRIMS = ["char", "signed char", "unsigned char", "_Bool", "short", "unsigned
 class Gen:
     """Random well-formed behaviours, much larger than TLC's pools.  Tracks just enough of the
     environment to respect the guards of Cdef.tla (TLC re-checks them: verdict 'guard')."""
-    def __init__(self, rng):
+    def __init__(self, rng, c_safe=False, nested=True):
         self.rng = rng
+        self.c_safe = c_safe
+        self.nested = nested
         self.td = {}         # name -> resolved term
         self.su = {}         # (kind, tag) -> complete?
         self.kind_of = {}    # tag -> kind
@@ -253,6 +285,7 @@ class Gen:
         self.consts = set()
         self.syms = set()
         self.beh = []
+        self.susize = {}
         self.nfn = self.ngv = 0
 
     def res(self, t):
@@ -266,6 +299,22 @@ class Gen:
         if k == "fnp":
             return ["fnp", self.res(t[1]), [self.res(a) for a in t[2]], t[3]]
         return t
+
+    PRIM_SIZE = {"char": 1, "signed char": 1, "unsigned char": 1, "_Bool": 1, "short": 2, "unsigned short": 2,
+                 "int8_t": 1, "uint8_t": 1, "int16_t": 2, "uint16_t": 2, "int": 4, "unsigned int": 4, "float": 4,
+                 "int32_t": 4, "uint32_t": 4, "wchar_t": 4}
+    LIMIT = 1 << 20          # TLC integers are 32-bit and the layout model counts bits
+
+    def approx_size(self, rt):
+        """upper bound of sizeof (resolved term); keeps the model's arithmetic inside 32 bits"""
+        k = rt[0]
+        if k == "prim":
+            return self.PRIM_SIZE.get(rt[1], 8)
+        if k == "arr":
+            return max(rt[2], 0) * self.approx_size(rt[1])
+        if k in ("struct", "union"):
+            return self.susize.get((k, rt[1]), 8)
+        return 8
 
     def complete(self, rt):
         k = rt[0]
@@ -314,7 +363,11 @@ class Gen:
         if c < 0.7:
             return ["ptr", self.ty(depth + 1, byval=False)]
         if c < 0.8 and arr_ok:
-            return ["arr", self.ty(depth + 1, byval=True), r.choice([1, 2, 3, 7, 100, 65536])]
+            item = self.ty(depth + 1, byval=True)
+            n = r.choice([1, 2, 3, 7, 100, 65536])
+            while n > 1 and n * self.approx_size(self.res(item)) > self.LIMIT:
+                n = {65536: 100, 100: 7, 7: 3, 3: 2, 2: 1}[n]
+            return ["arr", item, n]
         if c < 0.9:
             n = r.randrange(0, 4)
             args = [self.ty(depth + 1, byval=True, arr_ok=False) for _ in range(n)]
@@ -365,19 +418,34 @@ class Gen:
                 bits = -1
                 if self.res(t) in (["prim", "int"], ["prim", "unsigned int"]) and r.random() < 0.3 and key[0] == "struct":
                     bits = r.randrange(1, 33)
+                if self.nested and bits < 0 and r.random() < 0.12:
+                    # an anonymous struct/union defined in place: cparser names it "$N"
+                    inner = []
+                    for j in range(r.randrange(1, 4)):
+                        it = self.ty(1, byval=True)
+                        if tuple(key) in [tuple(x) for x in mg.sus_of(self.res(it))] and self.res(it)[0] not in ("ptr", "fnp"):
+                            it = ["ptr", key]
+                        inner.append(["g%d" % j, it, -1])
+                    t = ["anon", r.choice(["struct", "union"]), inner]
                 fs.append(["f%d" % i, t, bits])
             for f in fs:
                 self.note(f[1])
+            total = sum(8 + (sum(8 + self.approx_size(self.res(x[1])) for x in f[1][2]) if f[1][0] == "anon"
+                             else self.approx_size(self.res(f[1]))) for f in fs)
+            if total > self.LIMIT:
+                return
             if r.random() < 0.15:
                 n = "t%d" % (len(self.td) + 1)
                 self.beh.append({"a": "DeclTypedefAnon", "n": n, "kind": key[0], "fs": fs})
                 self.td[n] = [key[0], "$" + n]
                 self.su[(key[0], "$" + n)] = True
+                self.susize[(key[0], "$" + n)] = total
                 if key[1] not in [g for (_, g) in self.su]:
                     self.kind_of.pop(key[1], None)
             else:
                 self.beh.append({"a": "DeclStruct", "kind": key[0], "tag": key[1], "fs": fs})
                 self.su[(key[0], key[1])] = True
+                self.susize[(key[0], key[1])] = total
         elif c == 6:
             key = self.tag()
             if (key[0], key[1]) in self.su:
@@ -405,6 +473,12 @@ class Gen:
             self.consts.add(n)
             form = r.choice(["define", "static"])
             v = self.bigval()
+            if self.c_safe:
+                # the same text must also be valid C with the same value (API mode)
+                if form == "static" and not -2**31 <= int(v) < 2**31:
+                    form = "define"
+                if int(v) == -2**63:
+                    v = str(-2**63 + 1)
             self.beh.append({"a": "DeclConst", "form": form, "n": n, "val": v})
         elif c < 11:
             if self.nfn >= len(mg.POOL_FUNCS):
@@ -489,9 +563,8 @@ def run(ctx):
         cand = dumps[name]
         if len(cand) != dumps_n[name]:
             raise core.MachineryError("%s: %d behaviours printed, %d states" % (name, len(cand), dumps_n[name]))
-        if quick:
-            ctx.rng.shuffle(cand)
-            cand = cand[:250]
+        ctx.rng.shuffle(cand)
+        cand = cand[:200 if quick else 1000]
         for b in cand:
             kk = mg.beh_key(b)
             if b and kk not in keys:
@@ -517,7 +590,7 @@ def run(ctx):
                     if r["id"] in verdicts else None}, limit=3)
 
     # ---------------------------------------------------------------- code -> spec at real sizes
-    nrand = 60 if quick else 3000
+    nrand = 40 if quick else 600
     rbehs = [random_behaviour(ctx.rng, ctx.rng.randrange(3, 14 if quick else 25)) for _ in range(nrand)]
     rrecs = run_cases(ctx, rbehs, libpath, jobs)
     for r in rrecs:
@@ -538,7 +611,7 @@ def run(ctx):
               "(first: %r); verdicts come from comparing the modes" % (len(divs), divs[0][:3]))
     ctx.cov["rule"] = ("distinct = distinct behaviours (declaration sequences) built in both modes; all are "
                        "non-trivial: at least one declaration, every declared name is projected in both modes")
-    ctx.cov["exhaustive"] = not quick
+    ctx.cov["exhaustive"] = False
     ctx.assumptions += [
         "C has one tag namespace: no cdef declares 'struct x' and 'union x' together",
         "integer constants fit 64 bits",
